@@ -282,6 +282,18 @@ def tie_cases(rng, n):
             b = "%s%sE%d" % (sign, tail, e - len(tail))
             out.append(("add", sign + a if sign else a, b))
             out.append(("sub", a, ("-" if not sign else "") + b.lstrip("-")))
+        # sticky digits: a discarded part that is one half plus (or one half minus) a SINGLE far digit - 5 0..0 d 0..0 and
+        # 4 9..9 d' - with the digit at every distance from the rounding position (word-at-a-time scans of the discarded
+        # digits look at them in groups); through + and - and through the conversion of a text of more than 34 digits
+        for _k in range(8):
+            z, m, d = rng.randint(0, 26), rng.randint(0, 12), rng.choice("123456789")
+            tails = ["5" + "0" * z + d + "0" * m, "4" + "9" * z + rng.choice("012345678") + "0" * m, "5" + "0" * (z + m + 1), "0" * z + d + "0" * m]
+            for tail in tails:
+                b = "%s%sE%d" % (sign, tail, e - len(tail))
+                out.append(("add", sign + a if sign else a, b))
+                out.append(("sub", a, ("-" if not sign else "") + b.lstrip("-")))
+                out.append(("add", "%s%s%sE%d" % (sign, c, tail, e - len(tail)), "0"))
+                out.append(("mul", "%s%s%sE%d" % (sign, c, tail, e - len(tail)), "1"))
         # x / 2, x / 4, x / 8, x * 0.5, x * 1.5 with odd 34-digit x: 35-digit exact results
         out.append(("div", a, "2"))
         out.append(("div", a, "4"))
